@@ -41,6 +41,16 @@ PatternsF == UNION { { PAnd(<<N(x), I("q")>>), PAnd(<<I("p"), N(x), I("q")>>), P
 BodiesF == { <<"a", <<>> >>, <<"ab", <<>> >>, <<"ba", <<>> >>, <<"a", <<"xy">> >>, <<"b", <<>> >>, <<"p", <<>> >>, <<"q", <<>> >> }
 ListingsF == ListingsOver(BodiesF, 0, MaxListing)
 UniverseF == [patterns |-> SetToSeq(PatternsF), listings |-> SetToSeq(ListingsF)]
+\* ---- capture names first bound inside the argument of a $not (JasmPattern!SoundScope: judged one-sidedly) ----
+R == OCap("r")
+NotArgs == { PIns("a", <<R, R>>), PIns("a", <<R>>), PAnd(<<PIns("a", <<R>>), PIns("b", <<R>>)>>) }
+PatternsN == UNION { { PAnd(<<N(x), I("q")>>), PAnd(<<N(x), PIns("b", <<R>>)>>), PAnd(<<N(x), PIns("b", <<R>>), PIns("b", <<R>>)>>),
+                       PAnd(<<I("p"), N(x), PIns("b", <<OLit("x"), R>>)>>), PAnd(<<PIns("b", <<R>>), N(x), I("q")>>) } : x \in NotArgs }
+             \cup { PAnd(<<PIns("m", <<ONot(R), R>>)>>), PAnd(<<PIns("m", <<ONot(R)>>), PIns("b", <<R>>)>>) }
+BodiesN == { <<"a", <<"x", "x">> >>, <<"a", <<"x", "y">> >>, <<"b", <<"x">> >>, <<"b", <<"y">> >>, <<"b", <<"x", "x">> >>,
+             <<"m", <<"x", "x">> >>, <<"p", <<>> >>, <<"q", <<>> >> }
+ListingsN == ListingsOver(BodiesN, 0, MaxListing)
+UniverseN == [patterns |-> SetToSeq(PatternsN), listings |-> SetToSeq(ListingsN)]
 Universe == [patterns |-> SetToSeq(PatternsI), listings |-> SetToSeq(ListingsI)]
 UniverseO == [patterns |-> SetToSeq(PatternsO), listings |-> SetToSeq(ListingsO)]
 =============================================================================
